@@ -296,6 +296,13 @@ PROGRAMS = [
      [("switch", IN(0), [((1,), [_set(0, 0, 4, 3)]), (None, [_set(0, 1, 3, 2)])]), _set(0, 0, 4, IN(1))]),
     ([(1, False), (4, False)], [(4, False)],
      [_set(0, 0, 2, 1), ("if", [(IN(0), [_set(0, 2, 4, 3)])], [_set(0, 0, 4, 7)]), _set(0, 0, 4, IN(1)), ("if", [(IN(0), [_set(0, 3, 4, 0)])], None)]),
+    # a Case / If branch with an EMPTY body still takes part in the selection: it shadows later overlapping blocks
+    ([(2, False)], [(4, False)],
+     [("switch", IN(0), [((1,), []), (("-1",), [_set(0, 0, 4, 3)]), (None, [_set(0, 0, 4, 6)])])]),
+    ([(2, False)], [(4, False)],
+     [_set(0, 0, 4, 9), ("switch", IN(0), [((0, 2), [_set(0, 0, 2, 1)]), ((), []), ((3,), []), (None, [_set(0, 2, 4, 2)])])]),
+    ([(1, False), (1, False)], [(4, False)],
+     [("if", [(IN(0), []), (IN(1), [_set(0, 0, 4, 3)])], [_set(0, 0, 4, 6)])]),
     # zero-width test
     ([(0, False)], [(4, False)],
      [("switch", IN(0), [((0,), [_set(0, 0, 4, 1)]), (None, [_set(0, 0, 4, 2)])])]),
